@@ -103,6 +103,247 @@ def _inline_site(caller, bi, callee):
                                   "rv": {"k": "use", "op": copy.deepcopy(a)}, "span": span})
     call_blk["term"] = {"k": "goto", "target": off_b, "span": span, "inlined": callee["path"]}
     caller["blocks"].extend(frag)
+    if not os.environ.get("JBV_NO_THREAD"):
+        _thread_returns(caller, off_b, off_b + len(frag), off_l)
+
+
+# --------------------------------------------------------------------------------------
+# return-value threading (tail duplication with variant / constant propagation)
+#
+# A helper that returns `Result<Option<..>>` leaves its value in one merged slot; the caller then
+# takes it apart with switches.  On the CFG alone every return site reaches every arm, so a rule
+# that reasons about paths ("the only push-free path is the blank-line path") or about what a
+# switch depends on sees paths that cannot happen.  For every block of an inlined fragment that
+# assigns the helper's return local a value of known variant (`Ok(Some(..))`, `Err(..)`,
+# `from_residual(..)`), the straight continuation is followed with an environment of known variant
+# shapes and constants (moves, downcast / field projections, `discriminant`, `Try::branch`, drop
+# flags); every switch whose operand is known is resolved, and the path up to the last switch
+# resolved on a discriminant is duplicated for that site.  The duplicated blocks keep all statements
+# and calls; only resolved switches become gotos, so the specialised path is exactly one of the
+# original paths.
+
+_CORE_ENUMS = ("std::result::Result", "std::option::Option", "std::ops::ControlFlow")
+
+
+def _op_shape(o, env):
+    if not isinstance(o, dict):
+        return None
+    if o.get("k") == "const":
+        if "bool" in o and o.get("ty") == "bool":
+            return ("c", 1 if o["bool"] else 0, False)
+        return None
+    if o.get("k") in ("move", "copy"):
+        pl = o["place"]
+        sh = env.get(pl["local"])
+        return _proj_shape(sh, pl["proj"])
+    return None
+
+
+def _proj_shape(sh, proj):
+    i = 0
+    while i < len(proj):
+        if sh is None:
+            return None
+        el = proj[i]
+        if el["k"] == "downcast":
+            if sh[0] != "v" or sh[1] != el.get("variant"):
+                return None
+        elif el["k"] == "field":
+            if sh[0] not in ("v", "t"):
+                return None
+            fs = sh[3] if sh[0] == "v" else sh[1]
+            if el["i"] >= len(fs):
+                return None
+            sh = fs[el["i"]]
+        else:
+            return None
+        i += 1
+    return sh
+
+
+def _rv_shape(rv, env):
+    k = rv["k"]
+    if k == "use":
+        return _op_shape(rv["op"], env)
+    if k == "aggregate":
+        kd = rv["kind"]
+        if kd.get("k") == "adt" and kd.get("def") in _CORE_ENUMS and kd.get("variant") is not None:
+            return ("v", kd["variant"], kd.get("vidx"), [_op_shape(o, env) for o in rv["ops"]])
+        if kd.get("k") == "tuple":
+            return ("t", [_op_shape(o, env) for o in rv["ops"]])
+        return None
+    if k == "discriminant":
+        pl = rv["place"]
+        sh = _proj_shape(env.get(pl["local"]), pl["proj"])
+        if sh is not None and sh[0] == "v" and isinstance(sh[2], int):
+            return ("c", sh[2], True)
+        return None
+    return None
+
+
+def _apply_stmt(s, env, escaped):
+    if s.get("k") != "assign":
+        return
+    pl = s["place"]
+    rv = s["rv"]
+    if rv["k"] in ("ref", "rawptr"):
+        rp = rv["place"]
+        if not (rv["k"] == "ref" and not rv.get("mut")):
+            escaped.add(rp["local"])
+            env.pop(rp["local"], None)
+    if pl["proj"]:
+        env.pop(pl["local"], None)
+        return
+    sh = _rv_shape(rv, env)
+    if sh is not None and pl["local"] not in escaped:
+        env[pl["local"]] = sh
+    else:
+        env.pop(pl["local"], None)
+
+
+def _apply_call(t, env, escaped):
+    """effect of a call terminator on the environment"""
+    d = t.get("dest")
+    c = t.get("callee") or {}
+    name = c.get("def") if c.get("k") == "fndef" else None
+    sh = None
+    if name == "std::ops::Try::branch" and t.get("args"):
+        a = _op_shape(t["args"][0], env)
+        if a is not None and a[0] == "v":
+            if a[1] in ("Ok", "Some"):
+                sh = ("v", "Continue", 0, [a[3][0] if a[3] else None])
+            elif a[1] == "Err":
+                sh = ("v", "Break", 1, [("v", "Err", 1, [a[3][0] if a[3] else None])])
+            elif a[1] == "None":
+                sh = ("v", "Break", 1, [("v", "None", 0, [])])
+    elif name == "std::ops::FromResidual::from_residual":
+        ty = (c.get("args") or [""])[0]
+        if ty.startswith("std::result::Result<"):
+            sh = ("v", "Err", 1, [None])
+        elif ty.startswith("std::option::Option<"):
+            sh = ("v", "None", 0, [])
+    if d is not None:
+        if d["proj"] or sh is None or d["local"] in escaped:
+            env.pop(d["local"], None)
+        else:
+            env[d["local"]] = sh
+
+
+def _thread_from(caller, S, env, escaped, limit=48):
+    blocks = caller["blocks"]
+    path = []          # (block, successor taken, kind) ; kind: 'goto' straight edge / 'switch' resolved / 'useful'
+    cur = S
+    seen = {S}
+    while len(path) < limit:
+        t = blocks[cur]["term"]
+        k = t["k"]
+        nxt = None
+        kind = "edge"
+        if k == "goto":
+            nxt = t["target"]
+        elif k == "drop":
+            pl = t.get("place") or {}
+            if isinstance(pl.get("local"), int):
+                env.pop(pl["local"], None)
+            nxt = t.get("target")
+        elif k == "assert":
+            nxt = t.get("target")
+        elif k == "call":
+            _apply_call(t, env, escaped)
+            nxt = t.get("target")
+        elif k == "switch":
+            sh = _op_shape(t["discr"], env)
+            if sh is None or sh[0] != "c":
+                break
+            nxt = t.get("otherwise")
+            for v, tg in t["targets"]:
+                if v == sh[1]:
+                    nxt = tg
+            kind = "useful" if sh[2] else "switch"
+        else:
+            break
+        if nxt is None or nxt in seen:
+            break
+        path.append((cur, nxt, kind))
+        seen.add(nxt)
+        for s in blocks[nxt]["stmts"]:
+            _apply_stmt(s, env, escaped)
+        cur = nxt
+    last = max([i for i, (b, n, kd) in enumerate(path) if kd == "useful"], default=None)
+    if last is None:
+        return 0
+    # duplicate path[1..last] (the blocks after S up to the last usefully resolved switch)
+    seq = [b for b, n, kd in path[1:last + 1]]
+    base = len(blocks)
+    clones = {b: base + i for i, b in enumerate(seq)}
+
+    def retarget(t, old, new, resolved):
+        if resolved:
+            return {"k": "goto", "target": new, "span": t.get("span"), "threaded": True}
+        t = copy.deepcopy(t)
+        if t.get("target") == old:
+            t["target"] = new
+        return t
+    for i, (b, n, kd) in enumerate(path[:last + 1]):
+        tgt_new = clones.get(n, n)
+        if i == 0:
+            blk = blocks[b]
+        else:
+            blk = {"stmts": copy.deepcopy(blocks[b]["stmts"]), "term": None, "cleanup": blocks[b].get("cleanup", False)}
+            for kx, vx in blocks[b].items():
+                if kx not in blk:
+                    blk[kx] = copy.deepcopy(vx)
+        blk["term"] = retarget(blocks[b]["term"], n, tgt_new, kd in ("switch", "useful"))
+        if i > 0:
+            blocks.append(blk)
+    return len(seq)
+
+
+def _thread_returns(caller, lo, hi, ret_local):
+    blocks = caller["blocks"]
+    n = 0
+    for bi in range(lo, hi):
+        blk = blocks[bi]
+        env, escaped = {}, set()
+        for s in blk["stmts"]:
+            _apply_stmt(s, env, escaped)
+        t = blk["term"]
+        start = ret_local in env
+        if t["k"] == "call" and (t.get("dest") or {}).get("local") == ret_local and not t["dest"]["proj"]:
+            env2 = dict(env)
+            _apply_call(t, env2, set(escaped))
+            start = ret_local in env2
+        if start:
+            n += _thread_from(caller, bi, env, escaped)
+    if n:
+        _blank_dead(caller)
+    return n
+
+
+def _succs(t):
+    out = []
+    for k in ("target", "otherwise", "unwind"):
+        if isinstance(t.get(k), int):
+            out.append(t[k])
+    for v, tg in t.get("targets") or []:
+        out.append(tg)
+    return out
+
+
+def _blank_dead(caller):
+    blocks = caller["blocks"]
+    seen = {0}
+    st = [0]
+    while st:
+        b = st.pop()
+        for s in _succs(blocks[b]["term"]):
+            if s not in seen:
+                seen.add(s)
+                st.append(s)
+    for i, blk in enumerate(blocks):
+        if i not in seen and (blk["stmts"] or blk["term"]["k"] != "unreachable"):
+            blk["stmts"] = []
+            blk["term"] = {"k": "unreachable", "span": blk["term"].get("span"), "dead": True}
 
 
 def inline_new_helpers(doc, max_blocks=400):
